@@ -71,7 +71,8 @@ func runC11(c *an.Ctx) {
 		gt, gf := c.T(guard), c.F(guard)
 		an.Instrs(guard, func(in ssa.Instruction) {
 			if st, isSt := in.(*ssa.Store); isSt {
-				if _, isFV := st.Addr.(*ssa.FreeVar); isFV && gt.Of(st.Val) == reject {
+				// the verdict variable of the validator, written directly or through a captured pointer to it
+				if tgt := storeTarget(vm, guard, st); tgt != nil && isResultVar(vm, tgt) && gt.Of(st.Val) == reject {
 					for _, f := range gf.AtInstr(st) {
 						if f.Op == "EQ" && !f.Pos && (f.A == "nil" || f.B == "nil") {
 							okG = true
